@@ -2,6 +2,7 @@ package main
 
 import (
 	"fmt"
+	"io"
 	"strconv"
 	"strings"
 	"sync"
@@ -19,12 +20,14 @@ func init() {
 // allocfault: the fault scenario alone (run by the checks of C01, C02, C03, C09 and C10: a lock left behind by a
 // failed first use stops the delivery of every metric of that scope)
 func suiteAllocFault(c *Ctx) {
-	c.Cov.Rule = "a cached reporter whose Allocate call panics once for one name (the Prometheus reporter does that on a registration conflict unless told otherwise), the application recovers; for each metric kind, on the root and on a subscope: a later first use of another name, recording, a report pass and the root's Close must complete within 2 s (watchdog), and what was recorded on the second name must be delivered; every case nontrivial"
+	c.Cov.Rule = "a cached reporter whose Allocate call panics once for one name (the Prometheus reporter does that on a registration conflict unless told otherwise), the application recovers; for each metric kind, on the root and on a subscope: a later first use of another name, recording, a report pass and the root's Close must complete within 2 s (watchdog), and what was recorded on the second name must be delivered; plus a SLOW allocation: a first use of a new histogram name parked inside AllocateHistogram while the scope's final report runs (collection of the closed scope, or the root's Close): the samples recorded on an already registered histogram of that scope must be delivered; every case nontrivial"
 	for _, kind := range []string{"counter", "gauge", "timer", "histogram"} {
 		for _, onSub := range []bool{false, true} {
 			c09AllocFault(c, kind, onSub)
 		}
 	}
+	c09SlowAlloc(c, false)
+	c09SlowAlloc(c, true)
 	c.Cov.Traces = c.Cov.Evaluations
 }
 
@@ -342,4 +345,66 @@ func c09AllocFault(c *Ctx, kind string, onSub bool) {
 	}
 	c.Cov.Hit("alloc-fault." + kind)
 	c.Cov.Eval(line, true)
+}
+
+// c09SlowAlloc: a first use is in flight -- the cached reporter's AllocateHistogram for a NEW name is slow (the thread is
+// parked inside it, under the scope's histogram lock) -- while the scope's FINAL report runs: the scope was closed and a
+// pass collects it, or the root is being closed.  What had been recorded on an already registered histogram of that
+// scope must still be delivered ("everything recorded through any of the returned handles is delivered"): the pass has
+// to wait for the registration, it may not skip the scope's histograms and then clear them.
+func c09SlowAlloc(c *Ctx, viaRootClose bool) {
+	rc := newRecCached()
+	rc.log.Pre = func(e *Ev) {
+		if e.Kind == "alloc-hist" && strings.HasSuffix(e.Name, "slow") {
+			hook("rep.alloc-slow", "")
+		}
+	}
+	root, closer := tally.VerifNewRootScope(tally.ScopeOptions{CachedReporter: rc, OmitCardinalityMetrics: true}, 0, 1)
+	sc := root.SubScope("s")
+	h1 := sc.Histogram("h1", tally.ValueBuckets{1, 2})
+	h1.RecordValue(1.5)
+	h1.RecordValue(1.5)
+	s := NewSched(nil)
+	s.ParkOnT = func(th, l string) bool { return th == "A" && l == "rep.alloc-slow" }
+	s.Timeout = 300 * time.Millisecond
+	A := s.Spawn("A", func() { sc.Histogram("slow", tally.ValueBuckets{5}) })
+	l0 := runUntil(s, A, func(l, _ string) bool { return l == "rep.alloc-slow" })
+	var trace []string
+	trace = append(trace, "2 samples on s.h1; A: first use of s.slow parked inside AllocateHistogram ("+l0+")")
+	var P *Thr
+	if viaRootClose {
+		P = s.Spawn("P", func() { closer.Close() })
+		trace = append(trace, "P: root Close")
+	} else {
+		sc.(io.Closer).Close()
+		P = s.Spawn("P", func() { tally.VerifReportOnce(root) })
+		trace = append(trace, "s closed; P: report pass (collects s)")
+	}
+	l1 := runUntil(s, P, never)
+	trace = append(trace, "P "+l1)
+	l2 := runUntil(s, A, never)
+	trace = append(trace, "A "+l2)
+	if !P.Done {
+		l3, _ := s.Step(P)
+		trace = append(trace, "P "+l3)
+	}
+	s.Finish()
+	if !viaRootClose {
+		tally.VerifReportOnce(root)
+		closer.Close()
+	}
+	n := int64(0)
+	for _, e := range rc.log.Snapshot() {
+		if e.Kind == "samples" && strings.HasSuffix(rc.Meta[e.ID].Name, "h1") {
+			n += e.I
+		}
+	}
+	line := strings.Join(trace, " | ")
+	if n != 2 {
+		c.Cov.Fail(Failure{Kind: "violated", Clause: "recorded-is-delivered", Signature: "c09-final-report-during-slow-first-use", Line: line,
+			Reply: fmt.Sprintf("2 samples were recorded on s.h1 before the final report of s; %d were delivered", n)})
+	}
+	c.Cov.Hit(fmt.Sprintf("slow-alloc.root-close=%v", viaRootClose))
+	c.Cov.Eval(line, true)
+	c.Cov.Schedules++
 }
